@@ -11,8 +11,9 @@ pub use crate::lir::{
     Block, FloatCmp, Instruction, IntCmp, IrType, IrValue, Item, ItemKind,
     Memory, Operand, Signature, ValueOrSlot, Var, VarKind,
 };
+pub use crate::parser::Parser;
 pub use crate::parser::lexer::Lexer;
-pub use crate::parser::meta::Span;
+pub use crate::parser::meta::{Span, Spans};
 pub use crate::parser::token::{FStringToken, Keyword, Token};
 pub use crate::runtime::layout::{Layout, LayoutBuilder};
 pub use crate::typechecker::scope::ScopeRef;
